@@ -32,6 +32,8 @@ type World struct {
 
 	dirSim       []Pub
 	MemTransform func(*memswarm.Message) bool
+	// EmptyAskHook, if set, receives ask requests with an empty payload (C15)
+	EmptyAskHook func(ep Endpoint, ch int)
 	ChanOpenOn   func(ci, node int) bool
 
 	Led    *Ledger
